@@ -210,3 +210,38 @@ Proof.
   apply PF_skip; [apply PT_refl|]. apply PF_skip; [apply PT_refl|].
   apply PF_skip; [|apply PF_nil]. apply PT_group. apply PF_swap.
 Qed.
+
+(* ---- a key that normalises values ----
+   Any key that identifies DIFFERENT tags (here: the character "0" is ignored, so that
+   "3.5" and "3.05", "7" and "07" get the same key -- the effect of padding digit runs with
+   zeros) is not injective on canonical forms either: a look-alike sibling whose text as
+   written sorts between two differently written copies separates them.
+   ((Red),Duration/3.5 s),(Duration/3.05 s,(Red)),(Duration/3.5 s,(Red))
+     versus the same with the members of the first group swapped *)
+Fixpoint zerokey (v : view) : str :=
+  match v with
+  | VT a => filter (fun c => negb (N.eqb c 48)) (t_shortf a)
+  | VL l => ch_open :: join [ch_comma] (map zerokey l) ++ [ch_close]
+  end.
+
+Definition D35 := tg (s [68;117;114;97;116;105;111;110;47;51;46;53;32;115])
+                     (s [100;117;114;97;116;105;111;110;47;51;46;53;32;115])
+                     (s [100;117;114;97;116;105;111;110;47;51;46;53;32;115]).
+Definition D305 := tg (s [68;117;114;97;116;105;111;110;47;51;46;48;53;32;115])
+                      (s [100;117;114;97;116;105;111;110;47;51;46;48;53;32;115])
+                      (s [100;117;114;97;116;105;111;110;47;51;46;48;53;32;115]).
+Definition w_zero_1 : list tree := [G [G [Red]; D35]; G [D305; G [Red]]; G [D35; G [Red]]].
+Definition w_zero_2 : list tree := [G [D35; G [Red]]; G [D305; G [Red]]; G [D35; G [Red]]].
+
+Lemma dup_invariant_refuted_value_normalising_key :
+  PermForest w_zero_1 w_zero_2 /\ forallb wft w_zero_1 = true /\
+  zerokey (sv_k zerokey (G [D35; G [Red]])) = zerokey (sv_k zerokey (G [D305; G [Red]])) /\
+  dup_p Fx (VL (sorted_view_k zerokey w_zero_1)) = [] /\
+  dup_p Fx (VL (sorted_view_k zerokey w_zero_2)) = [K_TAG_REPEATED_GROUP] /\
+  check_for_duplicate_groups Fx w_zero_1 = Ok [K_TAG_REPEATED_GROUP] /\
+  check_for_duplicate_groups Fx w_zero_2 = Ok [K_TAG_REPEATED_GROUP].
+Proof.
+  split; [|vm_compute; repeat split; reflexivity].
+  unfold w_zero_1, w_zero_2.
+  apply PF_skip; [|apply PermForest_refl]. apply PT_group. apply PF_swap.
+Qed.
